@@ -11,6 +11,7 @@ import (
 	"sort"
 	"strings"
 	"syscall"
+	"time"
 
 	"github.com/BlackVectorOps/semantic_firewall/v3/pkg/storage/pebbledb"
 )
@@ -496,6 +497,56 @@ func runSequences(baseline map[string]string) []Record {
 			os.RemoveAll(prot + "/seq2target-" + tag)
 			os.RemoveAll(base2)
 		}
+	}
+	// (3) the open has to wait for a lock (another handle holds the database) and, while it
+	// backs off, the symlink it came through is re-pointed into a protected directory: whatever
+	// the retry opens, it must not be inside one
+	for _, prot := range protectedDirs[:2] {
+		tag := prot[1:]
+		base3 := "/work/seq3-" + tag
+		os.MkdirAll(base3+"/v1", 0o755)
+		os.MkdirAll(prot+"/seq3target-"+tag, 0o755)
+		os.Symlink(base3+"/v1", base3+"/current")
+		holder, herr := pebbledb.NewPebbleScanner(base3+"/v1/db", pebbledb.PebbleScannerOptions{})
+		id++
+		rec := Record{Case: Case{ID: id, Spelling: Spelling{Path: base3 + "/current/db", Cwd: "/", Fam: "sequence"}}, Verdict: "held",
+			Class: "sequence/symlink-repointed-during-lock-backoff/rw"}
+		if herr != nil {
+			rec.Skipped = "sequence-setup: holder could not open: " + herr.Error()
+			out = append(out, rec)
+			continue
+		}
+		before := snapshot()
+		type res struct {
+			o, r bool
+			e    string
+		}
+		done := make(chan res, 1)
+		go func() {
+			o, r, e := open(base3+"/current/db", false)
+			done <- res{o, r, e}
+		}()
+		time.Sleep(40 * time.Millisecond)
+		os.Remove(base3 + "/current")
+		os.Symlink(prot+"/seq3target-"+tag, base3+"/current")
+		time.Sleep(450 * time.Millisecond)
+		holder.Close()
+		var got res
+		select {
+		case got = <-done:
+		case <-time.After(20 * time.Second):
+			got = res{e: "open did not return within 20 s"}
+		}
+		diff := changed(before, snapshot(), prot)
+		rec.Opened, rec.Refused, rec.Err, rec.ProtDiff = got.o, got.r, got.e, diff
+		if len(diff) > 0 {
+			rec.Inside = prot
+			rec.Verdict, rec.Key = "violated", "not-refused/symlink-repointed-during-lock-backoff"
+			rec.What = fmt.Sprintf("%s/current/db was requested while another handle held the database it led to; during the lock back-off %s/current was re-pointed to %s/seq3target-%s; the retry then created files there: %v (opened=%v, err=%q)", base3, base3, prot, tag, diff, got.o, got.e)
+		}
+		out = append(out, rec)
+		os.RemoveAll(prot + "/seq3target-" + tag)
+		os.RemoveAll(base3)
 	}
 	return out
 }
